@@ -62,12 +62,17 @@ func main() {
 		rep.addFailure("bind", be, "contract does not bind to the code")
 	}
 	workdir, _ := os.MkdirTemp("", "govc-")
-	if !*keep {
-		defer os.RemoveAll(workdir)
+	cleanup = func() {
+		if !*keep {
+			os.RemoveAll(workdir)
+		} else {
+			fmt.Println("SMT files kept in", workdir)
+		}
 	}
-	cfg := &SolveConfig{workdir: workdir, t1: 5, t2: 20}
+	defer cleanup()
+	cfg := &SolveConfig{workdir: workdir, t0: 4, t1: 5, t2: 20}
 	if *tier == "thorough" {
-		cfg.t1, cfg.t2 = 20, 120
+		cfg.t0, cfg.t1, cfg.t2 = 10, 20, 120
 		cfg.allAgree = true
 	}
 	// functions under contract for this property
@@ -148,6 +153,13 @@ func main() {
 	}
 	rep.Obls = all
 	rep.finish(*out, start, *verbose)
+}
+
+var cleanup = func() {}
+
+func exit(code int) {
+	cleanup()
+	os.Exit(code)
 }
 
 func hasStr(xs []string, s string) bool {
@@ -340,10 +352,10 @@ func (r *Report) finish(out string, start time.Time, verbose bool) {
 		r.Prop, r.Tier, len(r.Funcs), nObl, nDis, len(knownHit), violations, time.Since(start).Seconds())
 	if nObl == 0 && violations == 0 {
 		fmt.Printf("VIOLATION property=%s replay=%s obligation=none (no obligations generated: vacuous check)\n", r.Prop, writeReplay(repDir, "no-obligations", "the check generated zero obligations"))
-		os.Exit(1)
+		exit(1)
 	}
 	if violations > 0 {
-		os.Exit(1)
+		exit(1)
 	}
 }
 
@@ -384,7 +396,7 @@ func fatalViolation(prop, verif, out, tier string, seed int, start time.Time, st
 		b, _ := json.MarshalIndent(ev, "", " ")
 		os.WriteFile(out, b, 0o644)
 	}
-	os.Exit(1)
+	exit(1)
 }
 
 func firstLine(s string) string {
